@@ -134,11 +134,11 @@ def ghostRx (rs : Spec.Reasm) (n : Nat) (data : List Nat) : Spec.Reasm × Nat :=
   | .ok (h, p) => if h.hs then ({}, 0) else (rs.feed h p, n)
   | .error _ => (rs, n)
 
-theorem setup_ring (s : Session) (v m w : Nat) : RingRep (s.setup v m w).recv {} 0 := by
-  constructor <;> simp [Session.setup, flat]
+theorem setup_ring (s : Session) (v m w now : Nat) : RingRep (s.setup v m w now).recv {} 0 := by
+  constructor <;> simp only [Session.setup] <;> (try split) <;> simp [flat]
 
 theorem handshakeReq_ring {s : Session} {g : Option Nat} {h : Hdr} {p : List Nat} {s' : Session}
-    (hok : s.processRxHandshakeReq g h p = .ok s') : RingRep s'.recv {} 0 := by
+    {now : Nat} (hok : s.processRxHandshakeReq g h p now = .ok s') : RingRep s'.recv {} 0 := by
   unfold Session.processRxHandshakeReq at hok
   split at hok
   · cases hok
@@ -152,10 +152,10 @@ theorem handshakeReq_ring {s : Session} {g : Option Nat} {h : Hdr} {p : List Nat
         · split at hok
           · cases hok
           · have := Except.ok.inj hok
-            rw [← this]; exact setup_ring _ _ _ _
+            rw [← this]; exact setup_ring _ _ _ _ _
 
 theorem handshakeResp_ring {s : Session} {h : Hdr} {p : List Nat} {s' : Session}
-    (hok : s.processRxHandshakeResp h p = .ok s') : RingRep s'.recv {} 0 := by
+    {now : Nat} (hok : s.processRxHandshakeResp h p now = .ok s') : RingRep s'.recv {} 0 := by
   unfold Session.processRxHandshakeResp at hok
   split at hok
   · cases hok
@@ -164,7 +164,7 @@ theorem handshakeResp_ring {s : Session} {h : Hdr} {p : List Nat} {s' : Session}
     · split at hok
       · cases hok
       · have := Except.ok.inj hok
-        rw [← this]; exact setup_ring _ _ _ _
+        rw [← this]; exact setup_ring _ _ _ _ _
 
 theorem processRx_ring {s : Session} (hs : SInv s) {rs : Spec.Reasm} {n : Nat} (hr : RingRep s.recv rs n)
     {g : Option Nat} {data : List Nat} (hd : Bytes data) {now : Nat} {s' : Session}
@@ -422,6 +422,7 @@ def recvBad (r : RecvWindow) (h : Hdr) (payload : List Nat) (mtu : Nat) : Bool :
   || r.level == 0
   || (h.getMsgLen.isSome && r.remMsgLen > 0)
   || fitsButNotFinal h mtu
+  || orphanSegment r h
   || decide (r.startRem h.getMsgLen < payload.length)
   || (!h.fin && !payload.isEmpty && r.startRem h.getMsgLen - payload.length == 0)
   || (h.fin && r.startRem h.getMsgLen - payload.length > 0)
@@ -460,13 +461,15 @@ theorem acceptIncoming_cases {w : Nat} (hw : w ≤ 255) {r : RecvWindow} (hri : 
         exact ⟨hb.1, by omega⟩
     have h8' : decide (ringFree r.buf < (sduPrefix h.getMsgLen).length + p.length) = false := by simp; omega
     unfold recvBad
-    rw [h1, h2', h3', h4, h5', h6', h7', h8']; rfl
+    rw [h1, h2', h3', h4, acceptIncoming_not_orphan hr, h5', h6', h7', h8']; rfl
   | error e =>
     left
     have c := recvAccept_clean w hw r hri h hh p mtu now
     rw [hr] at c
     simp only [Clean] at c
     unfold RecvWindow.acceptIncoming at hr
+    split at hr
+    · rename_i hc; cases hr; exact ⟨by simp [recvBad, hc], rfl⟩
     split at hr
     · rename_i hc; cases hr; exact ⟨by simp [recvBad, hc], rfl⟩
     split at hr
@@ -640,7 +643,7 @@ theorem spec_matches_code (s : Session) (hs : SInv s) (h : Hdr) (hh : h.Wf) (hhs
     (rw [Bool.eq_iff_iff]; by_cases hml : 0 < msgLen <;>
       simp [recvBad, Spec.noRoom, Spec.badFlags, Spec.badLength, Spec.expected, Spec.isAckOnly,
         viewOf, RecvWindow.checkDataIntegrity, Hdr.getOpcode, Hdr.isStandaloneAck, Hdr.getMsgLen, Hdr.getAck,
-        Hdr.getSeq, Hdr.len, fitsButNotFinal, RecvWindow.startRem, sduPrefix, hpe, hn, hml] <;> (constructor <;> intro hx <;> omega))
+        Hdr.getSeq, Hdr.len, fitsButNotFinal, orphanSegment, RecvWindow.startRem, sduPrefix, hpe, hn, hml] <;> (constructor <;> intro hx <;> omega))
 
 /-- **A data segment is refused with `InvalidData` exactly when it violates the protocol
 (`Spec.mustReject` on the protocol-level view of the state) or does not fit the receive buffer
